@@ -112,6 +112,28 @@ func genC03(p *Plan, r *RNG) {
 			p.Ops = append(p.Ops, Op{Actor: src, Kind: "replay", At: g, A: OpArgs{Target: c, N: r.Range(1, len(p.Ops))}})
 		}
 	}
+	if r.Chance(1, 6) && len(p.Ops) > 4 && p.Cfg.Auth != "none" {
+		// the operator rotates or removes a user's password while allocations of that user live:
+		// from then on only the new password authenticates, on old and new 5-tuples alike
+		user := r.Pick([]string{"u1", "u2"})
+		op := Op{Kind: "rotate", At: gap(int64(r.Range(50, 800)) * ms), A: OpArgs{User: user}}
+		if r.Chance(3, 4) {
+			op.A.S = "pw-rotated-" + user
+			if r.Chance(1, 2) {
+				// the clients of that user learn the new password
+				for _, c := range p.Clients {
+					if c.User == user {
+						op.A.Peers = append(op.A.Peers, c.ID)
+					}
+				}
+			}
+		}
+		k := r.Range(3, len(p.Ops)-1)
+		ops := append([]Op{}, p.Ops[:k]...)
+		ops = append(ops, op)
+		p.Ops = append(ops, p.Ops[k:]...)
+		p.Flavor += "+rotate"
+	}
 	p.QuietNS = 5 * sec
 	addFaults(p, r, faultLevel(r)/2)
 }
